@@ -44,7 +44,7 @@ try:
         # remove demo files before running the existing tests
         for d in placed:
             os.remove(os.path.join(wt, d))
-        rc, out = sh("go test -count=1 " + " ".join(pkgs), cwd=wt, timeout=3000)
+        rc, out = sh("go test -count=1 -timeout 60m " + " ".join(pkgs), cwd=wt, timeout=4000)
         res["existing_tests"] = {"pkgs": pkgs, "rc": rc, "tail": out[-600:]}
     ok = (res.get("demo_without_change", {}).get("rc") == 0 and res.get("apply") == 0 and res.get("build", {}).get("rc") == 0
           and res.get("demo_with_change", {}).get("rc") not in (0, None) and res.get("existing_tests", {}).get("rc") == 0)
